@@ -4,6 +4,7 @@ import (
 	"fmt"
 	"math/rand/v2"
 	"os"
+	"path/filepath"
 	"sort"
 	"strings"
 	"time"
@@ -315,6 +316,30 @@ func init() {
 
 func runC16(c run.Ctx) *core.CaseResult {
 	res := &core.CaseResult{ID: c.ID(), Verdict: "held"}
+	switch c.Index % 16 {
+	case 13:
+		// Close racing with background collectors and flusher (C17 family 1): only races are verdicts here
+		sub := &core.CaseResult{ID: c.ID(), Verdict: "held"}
+		c17CloseCase(c, sub, "", "")
+		res.Stats, res.Hash, res.NonTrivial = sub.Stats, sub.Hash, sub.NonTrivial
+		res.Add("c16_slice_close_during_activity", 1)
+		return res
+	case 14:
+		sub := &core.CaseResult{ID: c.ID(), Verdict: "held"}
+		dir, err := os.MkdirTemp(core.Scratch(), "vchk-fc16-")
+		if err == nil {
+			defer os.RemoveAll(dir)
+			for i := 0; i < 3; i++ {
+				os.WriteFile(filepath.Join(dir, string(rune('a'+i))), []byte{byte('a' + i), 1, 2, 3}, 0o644)
+			}
+			c14Concurrent(c, sub, dir, &c14Obs{states: map[string]bool{}})
+		}
+		res.Stats = sub.Stats
+		res.Hash = core.HashStrings("fc", fmt.Sprint(c.Index))
+		res.NonTrivial = true
+		res.Add("c16_slice_filecache_concurrent", 1)
+		return res
+	}
 	cc := genConcCase(c, "C16", true)
 	r := gen.Rng(c.Seed, propStream("C16x"), uint64(c.Index))
 	cc.pl.SizeQueries = true
